@@ -176,7 +176,7 @@ CONFIG = {
         "encoding/json of index.json / oci-layout is abstracted: a file holds the marshalled entry list as one write unit and parses back to it; Go's map iteration order in saveIndex is the Section variable shuffle with hypothesis In e (shuffle c l) <-> In e l",
         "descriptors: Tag/Delete are also generated with a digest+size-only descriptor (MediaType \"\") of the same blob; the model identifies a blob by its digest (so does Store.delete since its repair). A descriptor whose media type LIES about the content (a layer tagged as a manifest) is a caller inconsistency outside the quantifier; Tag refuses it. References that are digest strings are modelled (TagDig / ATagDigest / AUntagDigest) and generated",
         "media type and decodability of content are Section variables mt, dec of the API layer (Model expand/api_res/runa, extracted and run by the driver): a manifest-typed blob that does not decode is stored, unindexable and removed again by Push, refused by Tag; C10_api_reopen_loads proves that loadIndex (parse, blob files exist, every manifest-typed entry decodes: load_okb) succeeds at every cut; graph.IndexAll's recursion into successors during loading is not modelled (it only reads; undecodable successors are skipped by the code)",
-        "Store.delete also enters a dangling MANIFEST successor by digest when the resolver does not hold it; the model has no successor relation (C09's subject; the bridge Proofs/OciCrashGC.v is at the level of node sets and names, not of index contents). In the generated universes this needs the leftover of a Push killed between blob rename and index rename that is later reached through a referrer after a reopen: such scripts are abandoned and counted, not judged",
+        "Store.delete also enters a dangling MANIFEST successor by digest when the resolver does not hold it; the model has no successor relation (C09's subject; the bridge Proofs/OciCrashGC.v is at the level of node sets and names, not of index contents). In the generated universes this needs the leftover of a Push killed between blob rename and index rename that is later reached through a referrer after a reopen: such scripts are abandoned and counted, not judged -- except the dedicated script kinds dgc-unindexed-subject / dgc-unindexed-subject-tagged (process 1 killed after the blob rename of manifest 4, process 2 pushes its referrer and returns, process 3 loads the layout and deletes the referrer, killed at every system call): those are run WITHOUT model case lines and every clause of the property is judged by the oracle at every kill point (modelled: not; oracle only)",
         "write(2) is modelled as all-or-nothing at system-call granularity (the process is killed at system-call entries); C10_no_in_place_write shows that only temporaries are ever written, so torn writes cannot reach a file a reader looks at",
         "oci.New on an existing layout is modelled as: no change on disk, tag resolver := loadIndex(index.json) (Model reopen/load); graph.IndexAll during loading is not modelled (it only reads)",
         "crash points = entries of the file-system system calls (strace trace set in harness/crashkit10/trace.go) of the thread running the operation; other system calls (futex, mmap, signals) do not change the directory",
